@@ -49,7 +49,7 @@ GMODES = {
     "fill25": (dict(periodic=False, boundary="fill", fill_value=2.5), "fill", 2.5),
     "bperiodic": (dict(periodic=False, boundary="periodic"), "periodic", 0.0),
 }
-CALL_RULES_FULL = [None, "fill+fv", "fill+fvdict", "fill", "extend", "periodic"]
+CALL_RULES_FULL = [None, "fill+fv", "fill+fvdict", "fill", "extend", "periodic", "fvonly"]
 CALL_RULES_LIGHT = [None, "fill+fv"]
 
 
@@ -112,6 +112,11 @@ def _kwargs(W, call_rule, tag="fv"):
         fv = W.scalar(tag)
         kw = dict(boundary={"X": "fill"}, fill_value={"X": fv})
         rule, fill = "fill", fv
+    elif call_rule == "fvonly":
+        # a fill value alone does not choose the rule: the grid's rule stays in force and uses this value if it is 'fill'
+        fv = W.scalar(tag)
+        kw = dict(fill_value=fv)
+        rule, fill = None, fv
     elif call_rule == "fill":
         kw = dict(boundary="fill")
         rule = "fill"
@@ -167,6 +172,18 @@ def case_1ax(W, cfg):
                         continue
                     want = apply_along(a, ax_i, lambda v: spec_1d(v, frm, eff_to, N, op, rule, fill))
                     W.equal("value:" + lab, r.data, want)
+                    if op == "interp" and to is not None and (N + len(order)) % 2 == 0:
+                        # interp_like is a second public route to the same stencil: the target position is the template's,
+                        # the rule and fill value in force are resolved exactly as for interp
+                        like = xr.DataArray(np.zeros(plen(to, N)), dims=[dims[to]])
+                        kw2 = {k: v for k, v in kw.items() if k != "to"}
+                        try:
+                            r2 = grid.interp_like(da, like, **kw2)
+                            W.require("interp_like-dims:" + lab, tuple(r2.dims) == exp_dims, "dims %s want %s" % (r2.dims, exp_dims))
+                            if tuple(r2.dims) == exp_dims:
+                                W.equal("interp_like-value:" + lab, r2.data, want, record=False)
+                        except Exception as e:  # noqa
+                            W.fail("interp_like-raises:" + lab, "%s: %s" % (type(e).__name__, str(e)[:160]))
 
 
 def case_dshift(W, cfg):
